@@ -181,7 +181,28 @@ def k_seq(run, case):
              ["call:" + f for f in set(seq)], sample={"n": n, "mode": mode_name, "unit": unit_name, "sequence": seq,
                                                       "stamped": stamped})
     P, R, T = arr["p"], arr["R"], arr["t"]
+    SCALE = {"mm": 1e3, "cm": 1e2, "m": 1.0, "km": 1e-3}
+
+    def ticks_ok(axis_obj, u):
+        """tick labels of a length axis show the coordinate in the axis' own unit"""
+        if u == "m":
+            return True  # (matplotlib's own formatter on metre data)
+        fm = axis_obj.get_major_formatter()
+        for val in (1.5, -0.25, 40.0):
+            try:
+                shown = float(fm(val, 0).replace("\u2212", "-"))
+            except ValueError:
+                return False
+            if abs(shown - val * SCALE[u]) > 1e-5 * abs(val * SCALE[u]):
+                return False
+        return True
+
     try:
+        # another figure of the same session, prepared earlier for another length unit and still
+        # open (rendered / inspected only at the end): its ticks stay in its own unit
+        other_unit = [u for u in ("mm", "cm", "km") if u != unit_name][rng.integers(2)]
+        early_fig = plt.figure()
+        early_ax = plot.prepare_axis(early_fig, mode, length_unit=Unit(other_unit))
         for step, f in enumerate(seq):
             fig = plt.figure()
             decoy = None
@@ -374,10 +395,19 @@ def k_seq(run, case):
                           and not dax.collections, "an unrelated current figure is left alone", case,
                           "%s: evo wrote labels / data into another figure (%r, %r)" %
                           (where, dax.get_xlabel(), dax.get_ylabel()), key="labels:wrong-figure")
+            if f in ("traj", "traj_colormap", "markers", "edges", "frames"):
+                run.check(ticks_ok(ax.xaxis, unit_name) and ticks_ok(ax.yaxis, unit_name),
+                          "tick labels show the coordinates in the configured length unit", case,
+                          "%s: tick labels of the %s axes are not the coordinates in %s" % (where, mode_name, unit_name),
+                          key="labels:ticks-wrong-unit")
             if decoy is not None:
                 plt.close(decoy)
             plt.close(fig)
             run.hit("plot calls judged: " + f)
+        run.check(ticks_ok(early_ax.xaxis, other_unit) and ticks_ok(early_ax.yaxis, other_unit),
+                  "tick labels of a figure prepared earlier stay in that figure's unit", case,
+                  "a %s axis prepared for %s before the %s plots of this session now labels its ticks in another unit" %
+                  (mode_name, other_unit, unit_name), key="labels:ticks-of-earlier-figure")
     finally:
         plt.close("all")
     # the plotted object itself must still describe the generating poses
